@@ -449,7 +449,8 @@ def worker(lines, ctx):
 CLAUSE_PROPS = {"wf": ["C14", "C03"], "den": ["C03", "C15"], "denbag": ["C03", "C15"], "denlist": ["C03", "C15"], "meta": ["C06"], "coh": ["C17"]}
 CONFIGS = {
     "quick": [("MultiLite.cfg", 3), ("MultiQuick.cfg", 4)],
-    "thorough": [("MultiQuick.cfg", 1), ("MultiFull.cfg", 6), ("MultiDeep.cfg", 6)],
+    # (MultiDeep.cfg - three base calls - outgrew the time budget when the menus grew: >3.4 million states)
+    "thorough": [("MultiQuick.cfg", 1), ("MultiFull.cfg", 6)],
 }
 
 
